@@ -312,7 +312,9 @@ class New(cssutils.util._BaseClass):
             return Constants.attend
 
         # context: negation
-        elif 'negation' == context:
+        elif 'negation' == context and (
+            'type_selector' in expected or Constants.element_name == expected
+        ):
             # negation: (prefix|IDENT)
             self.append(seq, val, 'negation-type-selector', token=token)
             return Constants.negationend
@@ -394,7 +396,8 @@ class New(cssutils.util._BaseClass):
             self.append(seq, val, 'negation-end', token=token)
             self.context.pop()  # negation is done
             context = self.context[-1]
-            return Constants.simple_selector_sequence + Constants.combinator
+            # (no type selector or universal after the first simple selector)
+            return Constants.simple_selector_sequence2 + Constants.combinator
 
         # context: pseudo (at least one expression)
         if val in '+-' and context.startswith('pseudo-'):
@@ -420,16 +423,16 @@ class New(cssutils.util._BaseClass):
             elif 'pseudo-element' == context:
                 return Constants.combinator
             else:
-                return Constants.simple_selector_sequence + Constants.combinator
+                return Constants.simple_selector_sequence2 + Constants.combinator
 
         # context: ROOT
-        if '[' == val and 'attrib' in expected:
+        if '[' == val and 'attrib' in expected and context != 'attrib':
             # start of [attrib]
             self.append(seq, val, 'attribute-start', token=token)
             self.context.append('attrib')
             return Constants.attname
 
-        if val in '+>~' and 'combinator' in expected:
+        if val in '+>~' and 'combinator' in expected and context != 'attrib':
             # no other combinator except S may be following
             _names = {
                 '>': 'child',
@@ -805,7 +808,7 @@ class Selector(cssutils.util.Base2):
 
             elif (
                 typ == 'FUNCTION'
-                and val.lower() == 'not('
+                and self._normalize(val) == 'not('
                 and tokens
                 and ':' == self._tokenvalue(tokens[-1])
             ):
@@ -814,6 +817,7 @@ class Selector(cssutils.util.Base2):
                 typ == 'FUNCTION'
                 and tokens
                 and self._tokenvalue(tokens[-1]).startswith(':')
+                and not self._tokenvalue(tokens[-1]).endswith('(')
             ):
                 # pseudo-X: combine to :FUNCTION( or ::FUNCTION(
                 if self._tokenvalue(tokens[-1]).startswith('::'):
